@@ -39,13 +39,18 @@ type doc struct {
 	kvs  []kv // in document order
 }
 
-func dB(b bool) *doc     { return &doc{kind: dBool, b: b} }
-func dI(i int64) *doc    { return &doc{kind: dInt, i: i} }
-func dU(u uint64) *doc   { if u <= 1<<63-1 { return dI(int64(u)) }; return &doc{kind: dInt, u: u, big: true} }
-func dS(s string) *doc   { return &doc{kind: dStr, s: s} }
-func dT(s string) *doc   { return &doc{kind: dTime, s: s} }
-func dL(l ...*doc) *doc  { return &doc{kind: dList, list: l} }
-func dM(kvs ...kv) *doc  { return &doc{kind: dMap, kvs: kvs} }
+func dB(b bool) *doc  { return &doc{kind: dBool, b: b} }
+func dI(i int64) *doc { return &doc{kind: dInt, i: i} }
+func dU(u uint64) *doc {
+	if u <= 1<<63-1 {
+		return dI(int64(u))
+	}
+	return &doc{kind: dInt, u: u, big: true}
+}
+func dS(s string) *doc  { return &doc{kind: dStr, s: s} }
+func dT(s string) *doc  { return &doc{kind: dTime, s: s} }
+func dL(l ...*doc) *doc { return &doc{kind: dList, list: l} }
+func dM(kvs ...kv) *doc { return &doc{kind: dMap, kvs: kvs} }
 
 func (d *doc) intText() string {
 	if d.big {
@@ -85,7 +90,9 @@ func q(s string) string {
 	return string(b)
 }
 
-func isScalar(d *doc) bool { return d.kind == dBool || d.kind == dInt || d.kind == dStr || d.kind == dTime }
+func isScalar(d *doc) bool {
+	return d.kind == dBool || d.kind == dInt || d.kind == dStr || d.kind == dTime
+}
 
 func scalarText(d *doc) string {
 	switch d.kind {
